@@ -687,6 +687,12 @@ package ring
 //@   assigns polOut
 //@   ensures val(polOut) == uf_autom(old(val(polIn)), gen) && mexp(polOut) == old(mexp(polIn)) && dom(polOut) == 0
 
+//@ afunc Ring.AutomorphismNTTWithIndex
+//@   trusted ring-element view: polOut is the image of polIn under the automorphism whose NTT index table is given (coefficient-level contract: property C01), NAMED uf_automidx as a function of the element and of the table
+//@   requires isntt(polIn)
+//@   assigns polOut
+//@   ensures val(polOut) == uf_automidx(old(val(polIn)), contentid(index)) && mexp(polOut) == old(mexp(polIn)) && dom(polOut) == 1
+
 //@ afunc Ring.AutomorphismNTT
 //@   trusted ring-element view: polOut is the image of polIn under the automorphism X -> X^gen (coefficient-level contract: property C01)
 //@   requires isntt(polIn)
